@@ -51,7 +51,8 @@ def replay (j : Json) : R Verdict := do
       pf := ("C01", s!"op {i}: a parent taken from the pool does not conform") :: pf
     match (fieldD op "crossPanic").getStr?.toOption with
     | some m =>
-      pf := ("C15", s!"op {i}: crossover panicked: {m}") :: ("C01", s!"op {i}: crossover panicked: {m}") :: pf
+      pf := ("C15", s!"op {i}: crossover panicked: {m}") :: ("C01", s!"op {i}: crossover panicked: {m}") ::
+            ("C12", s!"op {i}: recombining {parents.length} parent(s) produced no offspring at all (panic: {m})") :: pf
     | none =>
       let cross ← decValue (← field op "cross")
       n := n + 1
